@@ -186,6 +186,7 @@ def handle (line : String) : String :=
     | some ops => s!"isstab {Q1t.Conj.isStabilizerCircuit ops}"
     | none => "bad-op"
   | "hist" :: _ => "any"
+  | "hist2" :: _ => "any"
   | "stream" :: _ => "ok"   -- a generator stream of the harness ran to its end (a panic in the code under test ends it)
   | "conj" :: name :: ops =>
     match nats? ops with
@@ -395,15 +396,54 @@ def conjSym (g : GateTerm Empty) (L : List P) : Option (Bool × List P) :=
   let cands := (Q1t.Spec.Clifford.allStrings L.length).flatMap fun L' => [(false, L'), (true, L')]
   cands.find? fun fl => decide (lhs = Q1t.Spec.Clifford.signed fl.1 (Q1t.Spec.Clifford.pauliMat Empty fl.2 : LMat Q8))
 
+/-- the 13 stabilizer primitives with their symbolic conjugation tables, computed once -/
+def primSymTables : List (String × List (List P × Option (Bool × List P))) :=
+  let prims : List (String × GateTerm Empty) :=
+    [("I", .I), ("X", .X), ("Y", .Y), ("Z", .Z), ("H", .H), ("S", .S), ("Sdg", .Sdg), ("V", .V), ("Vdg", .Vdg),
+     ("CX", .CX), ("CY", .CY), ("CZ", .CZ), ("Swap", .Swap)]
+  prims.map fun (nm, g) => (nm, (Q1t.Spec.Clifford.allStrings (Gate.nrBits g)).map fun L => (L, conjSym g L))
+
 /-- the signed rows after conjugating every row by gate `g` on `bits`, symbolically -/
 def conjRowsSym (g : GateTerm Empty) (bits : List Nat) (t : Tab) : Option (List PStr) :=
-  let table := (Q1t.Spec.Clifford.allStrings bits.length).map fun L => (L, conjSym g L)
+  let table : List (List P × Option (Bool × List P)) :=
+    match (Q1t.Conj.primName g).bind fun nm => primSymTables.find? (fun e => e.1 == nm) with
+    | some e => e.2
+    | none => (Q1t.Spec.Clifford.allStrings bits.length).map fun L => (L, conjSym g L)
   (List.zip t.signs t.rows).mapM fun (s, r) => do
     let L ← bits.mapM fun b => r[b]?
     let (_, res) ← table.find? (fun e => e.1 == L)
     let (flip, L') ← res
     let r' := (bits.zip L').foldl (fun acc bp => acc.set bp.1 bp.2) r
     pure (rowStr (s != flip) r')
+
+mutual
+/-- a combinator term on the qubits `bits`, expanded into its primitive gates in execution order (the documented
+meaning of `Composite` / `Kron` / `Loop`: sub-gates one after the other on their mapped qubits) -/
+partial def flattenTerm : GateTerm Empty → List Nat → Option (List (GateTerm Empty × List Nat))
+  | .Kron a b, bits => do
+      let na := Gate.nrBits a
+      let xs ← flattenTerm a (bits.take na)
+      let ys ← flattenTerm b (bits.drop na)
+      pure (xs ++ ys)
+  | .Composite _ _ ops, bits => flattenOps ops bits
+  | .Loop _ iters _ _ ops, bits => do
+      let body ← flattenOps ops bits
+      pure ((List.replicate iters body).flatten)
+  | .C _, _ => none
+  | g, bits => some [(g, bits)]
+partial def flattenOps : OpList Empty → List Nat → Option (List (GateTerm Empty × List Nat))
+  | .nil, _ => some []
+  | .cons g lbits rest, bits => do
+      let mapped ← lbits.mapM fun b => bits[b]?
+      let xs ← flattenTerm g mapped
+      let ys ← flattenOps rest bits
+      pure (xs ++ ys)
+end
+
+/-- symbolic conjugation by a sequence of primitive gates -/
+def conjSeqSym (seq : List (GateTerm Empty × List Nat)) (t : Tab) : Option (List PStr) :=
+  seq.foldlM (fun (rows : List PStr) (gb : GateTerm Empty × List Nat) =>
+    conjRowsSym gb.1 gb.2 ⟨t.n, rows.map (·.ops), rows.map (fun r => r.phase % 4 == 2)⟩) (signedRows t)
 
 /-- (B) for `n > 8`: the Pauli-group reference -/
 def specCheckBig (t : Tab) (op : String) (rest aw : List String) : String :=
@@ -440,6 +480,21 @@ def specCheckBig (t : Tab) (op : String) (rest aw : List String) : String :=
           match conjRowsSym ge bits t with
           | some exp => judge exp "gate"
           | none => "fail spec-symbolic-conjugation-failed"
+        else "skip"
+      | none => "skip"
+    | _, _ => "skip"
+  | "tgate", _mode :: bits :: term =>
+    match parseBits bits, Q1t.GateParse.parseGate term with
+    | some bits, some (g, []) =>
+      match toE g with
+      | some ge =>
+        if cliffordWF ge && bits.all (· < t.n) && Q1t.Spec.StabEnum.nodupBy (· == ·) bits && bits.length == Gate.nrBits ge then
+          match flattenTerm ge bits with
+          | some seq =>
+            match conjSeqSym seq t with
+            | some exp => judge exp "tgate"
+            | none => "fail spec-symbolic-conjugation-failed"
+          | none => "skip"
         else "skip"
       | none => "skip"
     | _, _ => "skip"
@@ -497,6 +552,20 @@ def specCheck (mat : Option (List (List Z8))) (line : String) : String :=
             else if expand got != expand exp then "fail hist-ranges-do-not-match-register the tableaus owned by the shots do not carry the q1 values stored for those shots"
             else "ok"
       | _ => "fail hist-did-not-return"
+    | "hist2" :: _n :: shots :: _ =>
+      -- after reset_all every shot is |0..0>: X on qubit 1 then a read-out gives 1 in EVERY shot (bit 1), qubit 0 reads 0
+      -- (bit 2); the ranges must still account for all shots
+      match splitBars aw, shots.toNat? with
+      | [("words" :: ws), ("counts" :: cs)], some shots =>
+        match nats? ws, nats? cs with
+        | some ws, some cs =>
+          if ws.length != shots then "fail hist2-register-length"
+          else if cs.foldl (· + ·) 0 != shots then s!"fail hist2-counts-do-not-sum-to-shots the ranges after reset_all cover {cs.foldl (· + ·) 0} of {shots} shots"
+          else match ws.zipIdx.find? (fun wi => !(wi.1.testBit 1) || wi.1.testBit 2) with
+            | some (w, i) => s!"fail hist2-shot-not-reset shot {i}: after reset_all, X(1), read-out of qubits 1 and 0 stored {if w.testBit 1 then 1 else 0} and {if w.testBit 2 then 1 else 0} (expected 1 and 0)"
+            | none => "ok"
+        | _, _ => "fail unparsable-answer"
+      | _, _ => "fail hist2-did-not-return"
     | "stream" :: _ => if aw == ["ok"] then "ok" else "fail stream-panicked the code under test panicked while the harness evolved a state"
     | "conj" :: _ => "skip"
     | ["isstab", _] => "skip"
